@@ -54,6 +54,34 @@ def call_block(ctx, rng, lines, cases):
             lines.append("stab %s %s %s" % (cls.__name__, q(zr), q(zi)))
             cases.append((cls.__name__, "through-call", complex(float(zr), float(zi)), float(dT), y1))
             ctx.count("call:accepted")
+    # two chained calls on ONE integrator object with the decay constant changed in between (OdeSystem.constants): the second step is
+    # the stability function of the equation it was GIVEN - nothing of the first call's right-hand side may enter it
+    for cls in I.implicit_methods():
+        for (k1, k2) in ([(2048.0, 1.0)] if ctx.quick() else [(2048.0, 1.0), (1.0, 2048.0), (65536.0, 0.5)]):
+            lam0 = complex(-1.0, rng.choice([0.0, 0.5, 2.0]))
+            a, b = lam0.real, lam0.imag
+            L = np.array([[a, -b], [b, a]])
+            f = DS.DiffRHS(lambda t, y, k=1.0: k * (L @ y))
+            f.jac = lambda t, y, k=1.0: k * L
+            integ = cls((2,), dtype=np.float64, rtol=1e-7, atol=1e-200)
+            y0 = np.array([1.0, 0.0])
+            h = np.float64(rng.choice([0.125, 0.5]))
+            try:
+                _, (dT1, dY1) = integ(f, np.float64(0.0), y0.copy(), dict(k=k1), h)
+                ya = y0 + np.array(dY1)
+                _, (dT2, dY2) = integ(f, np.float64(0.0) + dT1, ya.copy(), dict(k=k2), h)
+            except de.exception_types.FailedToMeetTolerances:
+                ctx.count("chained-call:refused")
+                continue
+            except Exception as e:
+                ctx.count("chained-call:exception:" + type(e).__name__)
+                continue
+            yb = ya + np.array(dY2)
+            ratio = complex(yb[0], yb[1]) / complex(ya[0], ya[1]) if abs(complex(ya[0], ya[1])) > 0 else complex("nan")
+            zr, zi = Fr(lam0.real) * Fr(k2) * Fr(float(dT2)), Fr(lam0.imag) * Fr(k2) * Fr(float(dT2))
+            lines.append("stab %s %s %s" % (cls.__name__, q(zr), q(zi)))
+            cases.append((cls.__name__, "chained-call-new-constants", complex(float(zr), float(zi)), float(dT2), ratio))
+            ctx.count("chained-call:accepted")
 
 
 def run(ctx):
@@ -62,10 +90,14 @@ def run(ctx):
     call_block(ctx, rng, lines, cases)
     reps = 10 if ctx.quick() else 60
     for cls in I.implicit_methods():
-        for rep in range(reps):
+        for rep in range(reps + 3):
             # half of the samples where the shape of the stability function matters (|z| ~ 0.1..100), the rest over 11 decades
             mag = 10.0 ** (rng.uniform(-1, 2) if rep % 2 == 0 else rng.uniform(-3, 8))
             kind = rng.choice(["real", "complex", "imag-axis", "near-axis"])
+            stiff_backward = rep >= reps          # three more per method: backward steps (h < 0, Re lambda > 0) on stiff oscillatory blocks
+            if stiff_backward:
+                mag = 10.0 ** rng.uniform(4, 7)
+                kind = rng.choice(["complex", "imag-axis", "near-axis"])
             if kind == "real":
                 zr, zi = -mag, 0.0
             elif kind == "complex":
@@ -78,7 +110,7 @@ def run(ctx):
                 zr, zi = mag * math.cos(th), mag * math.sin(th) * rng.choice([1, -1])
             # z as dyadic rationals so that the exact evaluation and the float run see the same z
             zr, zi = float(np.float32(zr)), float(np.float32(zi))
-            h = rng.choice([1.0, 0.125, 2.0 ** -10, -0.5])
+            h = rng.choice([1.0, 0.125, 2.0 ** -10, -0.5]) if not stiff_backward else rng.choice([-0.5, -1.0, -2.0 ** -6])
             lam = complex(zr, zi) / h
             try:
                 y1, ok = one_step(cls, lam, h)
